@@ -20,7 +20,7 @@ func init() {
 	})
 	prop(&PropertySpec{
 		ID: "C20", Level: "other",
-		Rules: []string{"R20.1", "R20.2", "R20.3", "R20.4", "R11.5", "R11.7", "R11.4", "R01.9", "R02.5"},
+		Rules: []string{"R20.1", "R20.2", "R20.3", "R20.4", "R11.5", "R11.7", "R11.4", "R01.9", "R02.5", "R01.12"},
 		Explanation: "R20.1 the configured limit flows unchanged into bufio.Scanner.Buffer on both entry points (ReadConfig.MaxEventSize under cfg != nil && > 0; Connection.Buffer's arguments are stored and forwarded by the parser factory; Parser.Buffer forwards both to the scanner created in New and used by Next, which is created with the split function); " +
 			"R20.2 the split function returns a token only after the scan stopped at a line break followed by a second line break, or when atEOF holds: the early `request more data` return covers advance==len(data) && !atEOF, so an oversized event makes bufio report ErrTooLong instead of yielding a truncated token; R20.4 more data is requested ((0, nil, nil)) only for empty input or after the scan reached the end of the buffered data without finding the end of an event (so a complete event sitting in the buffer is always delivered, and events below the limit never hit ErrTooLong); R20.3 the token is a sub-slice of the input starting at the skipped-blank-lines offset and ending at advance; R11.5/R11.7/R11.4 a scanner that stops (e.g. with ErrTooLong) always ends the iteration with an error; R02.5 delivered values own their memory (they are not views of the scanner's reused buffer); R01.9 the field parser consumes exactly one line per step, so a partially received line is never interpreted.",
 		NotDecided: "panic freedom of the index arithmetic; the exact number of bytes bufio reads before ErrTooLong; 'intact below the limit'.",
@@ -336,9 +336,18 @@ func r16_3(c *Ctx) {
 		c.bad(name+":shape", P.pos(fn.Pos()), "ServeHTTP does not (Upgrade, getSubscription, provider.Subscribe)")
 		return
 	}
-	upErr := func(v ssa.Value) bool { e, ok := v.(*ssa.Extract); return ok && e.Index == 1 && e.Tuple == ssa.Value(up) }
-	upSess := func(v ssa.Value) bool { e, ok := v.(*ssa.Extract); return ok && e.Index == 0 && e.Tuple == ssa.Value(up) }
-	gsOK := func(v ssa.Value) bool { e, ok := v.(*ssa.Extract); return ok && e.Index == 1 && e.Tuple == ssa.Value(gs) }
+	upErr := func(v ssa.Value) bool {
+		e, ok := v.(*ssa.Extract)
+		return ok && e.Index == 1 && e.Tuple == ssa.Value(up)
+	}
+	upSess := func(v ssa.Value) bool {
+		e, ok := v.(*ssa.Extract)
+		return ok && e.Index == 0 && e.Tuple == ssa.Value(up)
+	}
+	gsOK := func(v ssa.Value) bool {
+		e, ok := v.(*ssa.Extract)
+		return ok && e.Index == 1 && e.Tuple == ssa.Value(gs)
+	}
 	is500 := func(call *ssa.Call) bool {
 		k, ok := constInt(call.Call.Args[2])
 		return ok && k == 500 && isW(call.Call.Args[0])
@@ -487,8 +496,14 @@ func r16_4(c *Ctx) {
 			}
 		}
 	})
-	onTopics := func(v ssa.Value) bool { e, ok := v.(*ssa.Extract); return ok && on != nil && e.Index == 0 && e.Tuple == ssa.Value(on) }
-	onOK := func(v ssa.Value) bool { e, ok := v.(*ssa.Extract); return ok && on != nil && e.Index == 1 && e.Tuple == ssa.Value(on) }
+	onTopics := func(v ssa.Value) bool {
+		e, ok := v.(*ssa.Extract)
+		return ok && on != nil && e.Index == 0 && e.Tuple == ssa.Value(on)
+	}
+	onOK := func(v ssa.Value) bool {
+		e, ok := v.(*ssa.Extract)
+		return ok && on != nil && e.Index == 1 && e.Tuple == ssa.Value(on)
+	}
 	topOK := on != nil
 	for _, st := range topicsStores {
 		if a, ok := loadedFrom(st.Val); ok {
@@ -1295,4 +1310,29 @@ func isTopicsDefaulter(P *Program, f *ssa.Function) bool {
 		}
 	}
 	return true
+}
+
+// Rule-set widenings found necessary by the third wave of independent changes: a change to one of
+// these rules' subjects breaks the listed property as well (see DESIGN.md §9).
+func init() {
+	add := func(prop string, note string, rules ...string) {
+		p := properties[prop]
+		if p == nil {
+			return
+		}
+		have := map[string]bool{}
+		for _, r := range p.Rules {
+			have[r] = true
+		}
+		for _, r := range rules {
+			if !have[r] {
+				p.Rules = append(p.Rules, r)
+			}
+		}
+		p.Explanation += " " + note
+	}
+	add("C11", "R12.6 is claimed here too: \"a connection that ends is retried according to the backoff policy … until retries are exhausted\" rests on the retry counter and the elapsed-time limit of backoffController.next/reset.", "R12.6")
+	add("C05", "R08.5/R08.6/R09.8 are claimed here too: a wrong replay start position at the resume boundary duplicates or loses an event across a reconnect.", "R08.5", "R08.6", "R09.8")
+	add("C02", "R01.8 is claimed here too: go-sse's own decoder must strip exactly the one space the encoder writes after the colon.", "R01.8")
+	add("C15", "R01.8 is claimed here too: the round trip goes through scanSegment/trimFirstSpace.", "R01.8")
 }
